@@ -17,6 +17,7 @@ import SpVerif.Ops.Prefix
 import SpVerif.Ops.DirectiveFixed
 import SpVerif.Ops.DirectiveVar
 import SpVerif.Ops.FileData
+import SpVerif.Ops.Mutation
 import SpVerif.Ops.MsgToUser
 import SpVerif.Ops.Factory
 /-!
@@ -45,6 +46,7 @@ def allOps : List (String × Handler) := []
   ++ Ops.DirectiveFixed.ops
   ++ Ops.DirectiveVar.ops
   ++ Ops.FileData.ops
+  ++ Ops.Mutation.ops
   ++ Ops.MsgToUser.ops
   ++ Ops.Factory.ops
 
